@@ -6,6 +6,7 @@ pub mod c02;
 pub mod c06;
 pub mod c10;
 pub mod c09;
+pub mod c13;
 
 pub fn meta(id: &str, tier: &str) -> Option<CheckMeta> {
     match id {
@@ -14,6 +15,7 @@ pub fn meta(id: &str, tier: &str) -> Option<CheckMeta> {
         "C06" => Some(c06::meta(tier)),
         "C10" => Some(c10::meta(tier)),
         "C09" => Some(c09::meta(tier)),
+        "C13" => Some(c13::meta(tier)),
         _ => None,
     }
 }
@@ -39,6 +41,7 @@ pub fn worker(ctx: &Ctx, res: &mut ShardResult) {
         "C06" => c06::worker(ctx, res),
         "C10" => c10::worker(ctx, res),
         "C09" => c09::worker(ctx, res),
+        "C13" => c13::worker(ctx, res),
         _ => panic!("unknown check"),
     }
 }
@@ -54,6 +57,7 @@ pub fn replay(path: &str) -> i32 {
         "C06" => c06::replay(&v["case"]),
         "C10" => c10::replay(&v["case"]),
         "C09" => c09::replay(&v["case"]),
+        "C13" => c13::replay(&v["case"]),
         _ => vec![format!("no replayer for {}", id)],
     };
     let _ = json!(null);
